@@ -70,7 +70,7 @@ func (cs *concState) term(js interface{}, t types.Type) (Term, error) {
 		}
 		if es, _ := m["errstr"].(string); es == "EOF" {
 			return u.eng.errConst("io.EOF"), nil
-		} else if id, ok := u.eng.errText[es]; ok {
+		} else if id, ok := u.eng.errTexts()[es]; ok {
 			return Term{fmt.Sprint(id), s}, nil
 		}
 		return Term{"5000", s}, nil
@@ -171,6 +171,54 @@ func (cs *concState) term(js interface{}, t types.Type) (Term, error) {
 			parts = []string{"false"}
 		}
 		return Term{"(mk-" + sn + " " + strings.Join(parts, " ") + ")", s}, nil
+	case KIface:
+		m, _ := js.(map[string]interface{})
+		if n, _ := m["nil"].(bool); n || m == nil {
+			return Term{"(mk-iface 0 0)", s}, nil
+		}
+		dyn, hasDyn := m["dyn"].(string)
+		if hasDyn && !strings.HasSuffix(dyn, ".govcReader") {
+			return Term{}, fmt.Errorf("interface value of dynamic type %s not supported in concrete evaluation", dyn)
+		}
+		ref := cs.next
+		cs.next++
+		pv := m
+		if hasDyn {
+			pv, _ = m["val"].(map[string]interface{})
+		}
+		sv, _ := pv["val"].(map[string]interface{})
+		fs, _ := sv["fields"].([]interface{})
+		// fields: data, pos, sched, faulted, calls
+		if len(fs) < 4 {
+			return Term{}, fmt.Errorf("unexpected reader encoding")
+		}
+		dm, _ := fs[0].(map[string]interface{})
+		elems, _ := dm["elems"].([]interface{})
+		arr := "((as const (Array Int (_ BitVec 8))) #x00)"
+		for i, ej := range elems {
+			bi, _ := new(big.Int).SetString(ej.(string), 10)
+			arr = fmt.Sprintf("(store %s %d %s)", arr, i, bvConst(bi, bvSort(8, false)).S)
+		}
+		pos, _ := fs[1].(string)
+		faulted, _ := fs[3].(bool)
+		set := func(name, srt, zero, val string) {
+			hn := "GF." + name
+			cs.sorts[hn] = "(Array Int " + srt + ")"
+			cs.zero[hn] = zero
+			if cs.flat[hn] == nil {
+				cs.flat[hn] = map[int64]string{}
+			}
+			cs.flat[hn][ref] = val
+		}
+		set("sdata", "(Array Int (_ BitVec 8))", "((as const (Array Int (_ BitVec 8))) #x00)", arr)
+		set("sn", "Int", "0", fmt.Sprint(len(elems)))
+		set("spos", "Int", "0", pos)
+		if faulted {
+			set("sfault", "Int", "0", "5000")
+		} else {
+			set("sfault", "Int", "0", "0")
+		}
+		return Term{fmt.Sprintf("(mk-iface 1 %d)", ref), s}, nil
 	case KArray:
 		m, _ := js.(map[string]interface{})
 		es, _ := m["array"].([]interface{})
